@@ -37,6 +37,9 @@ def flow(ctx, variant, count, seed):
 def internal(ctx, variant, name, gen_args, chunk):
     h = common.build_harness(name, variant)
     lines = common.harness_gen(h, gen_args)
+    if name == "c07mag":
+        # whole successive-shortest-path runs at the edges of the domain of c07_ssp_run_no_overflow (corpus/C07/cases.txt)
+        lines = common.corpus("C07", "M2 ") + lines
     impl, _, _ = common.run_both([h, "run"], None, lines, chunk=chunk, timeout=240)
     bad = []
     for l, i in zip(lines, impl):
